@@ -98,7 +98,9 @@ func (e *aggregate) SubMergers(subs []Expr) []SubMerge {
 	result := make([]SubMerge, len(subs))
 	for i, sub := range subs {
 		if e.String() == sub.String() {
+			// only the first match: a second field with the same expression holds the same data
 			result[i] = e.subMerge
+			break
 		}
 	}
 	return result
